@@ -267,20 +267,20 @@ class StudyConfig(base_study_config.ProblemStatement):
 
     # The internally stored proto already contains metadata.
     proto.ClearField('metadata')
-    for ns in self.metadata.namespaces():
+    metadata = self.metadata
+    if self.pythia_endpoint is not None:
+      # The endpoint is one of the metadata entries (from_proto() reads it from
+      # there): store it with them, so that it keeps its place among the
+      # entries of its namespace and a second conversion gives the same proto.
+      metadata = copy.deepcopy(metadata)
+      metadata.abs_ns(common.Namespace([constants.PYTHIA_ENDPOINT_NAMESPACE]))[
+          constants.PYTHIA_ENDPOINT_KEY
+      ] = self.pythia_endpoint
+    for ns in metadata.namespaces():
       ns_string = ns.encode()
-      ns_layer = self.metadata.abs_ns(ns)
+      ns_layer = metadata.abs_ns(ns)
       for key, value in ns_layer.items():
         metadata_util.assign(proto, key=key, ns=ns_string, value=value)
-    if self.pythia_endpoint is not None:
-      ns = common.Namespace([constants.PYTHIA_ENDPOINT_NAMESPACE])
-      metadata_util.assign(
-          proto,
-          key=constants.PYTHIA_ENDPOINT_KEY,
-          ns=ns.encode(),
-          value=self.pythia_endpoint,
-          mode='insert_or_assign',
-      )
     return proto
 
   def _trial_to_external_values(
